@@ -438,6 +438,9 @@ func (mpt *MerklePatriciaTrie) delete(key Key, prefix, path Path) (Node, Key, er
 		return nil, nil, err
 	}
 	if len(path) == 0 {
+		if ln, ok := node.(*LeafNode); ok && len(ln.Path) != 0 {
+			return nil, nil, ErrValueNotPresent // the leaf holds a longer path, there is nothing to delete
+		}
 		return mpt.deleteAfterPathTraversal(node)
 	}
 	return mpt.deleteAtNode(key, node, prefix, path)
@@ -772,6 +775,9 @@ func (mpt *MerklePatriciaTrie) insertAfterPathTraversal(value MPTSerializable, n
 func (mpt *MerklePatriciaTrie) deleteAfterPathTraversal(node Node) (Node, Key, error) {
 	switch nodeImpl := node.(type) {
 	case *FullNode:
+		if !nodeImpl.HasValue() {
+			return nil, nil, ErrValueNotPresent // There is nothing to delete
+		}
 		// The value of the branch needs to be updated
 		nnode := nodeImpl.Clone().(*FullNode)
 		nnode.SetValue(nil)
@@ -788,7 +794,7 @@ func (mpt *MerklePatriciaTrie) deleteAfterPathTraversal(node Node) (Node, Key, e
 		}
 		return nil, nil, nil
 	case *ExtensionNode:
-		panic("this should not happen!")
+		return nil, nil, ErrValueNotPresent // an extension node never holds a value, there is nothing to delete
 	default:
 		panic(fmt.Sprintf("unknown node type: %T %v", node, node))
 	}
